@@ -72,15 +72,7 @@ theorem step_ctx : ∀ (it : It) (c c' : Ctx), (step it c).ctx? = some c' → c'
     | panic m => simp [hs, StepRes.ctx?] at h
   | .mk rest (.endInner ls), c, c', h => by
     simp only [step] at h
-    cases hg : c.get ls.var with
-    | none => simp [hg, StepRes.ctx?] at h
-    | some v =>
-      cases v with
-      | val prev =>
-        simp only [hg] at h
-        split at h <;> (simp only [StepRes.ctx?, Option.some.injEq] at h; subst h; exact ⟨rfl, rfl⟩)
-      | z => simp [hg, StepRes.ctx?] at h
-      | x => simp [hg, StepRes.ctx?] at h
+    split at h <;> (simp only [StepRes.ctx?, Option.some.injEq] at h; subst h; exact ⟨rfl, rfl⟩)
   | .mk rest (.startWhile ws), c, c', h => by
     simp only [step] at h
     cases he : evalE ws.cond c with
